@@ -366,6 +366,11 @@ func (d *DBFT[H]) onPrepareRequest(msg ConsensusPayload[H]) {
 	d.processMissingTx()
 	d.updateExistingPayloads(msg)
 	d.PreparationPayloads[msg.ValidatorIndex()] = msg
+	if d.isAntiMEVExtensionEnabled() {
+		// PreBlock can't be constructed (and thus early PreCommits can't be
+		// verified by updateExistingPayloads) until the request is stored.
+		d.verifyPreCommitPayloadsAgainstPreBlock()
+	}
 
 	if !d.hasAllTransactions() || !d.createAndCheckBlock() || d.Context.WatchOnly() {
 		return
